@@ -3,7 +3,7 @@
    rule of the language reference for positional-only / named-only calls; it is itself
    validated against real Python calls by the correspondence (every case carries the
    outcome of the actual call). *)
-From AV Require Import Base Invoke InvokeProofs.
+From AV Require Import Base Invoke InvokeProofs Gen_jsonrpc InvokeCode InvokeCodeProofs.
 
 (* soundness: whatever is accepted, Python can bind - for every signature and every call.
    (On the original tree this failed for a handler with a required keyword-only parameter: F13,
@@ -55,7 +55,21 @@ Example C19_ex :
   handler_invocation (Some s) (ByName [3]%N) = Some (-32602)%Z.
 Proof. repeat split. Qed.
 
+(* jsonrpc.handler_invocation is translated from the Python source on every run into a list of decisions
+   (gen/Gen_jsonrpc.v: invocation_code: the order of the checks, what each raises, where an invocation is returned);
+   nothing was left untranslated, and for EVERY handler signature (or no handler) and every call - positional with any
+   number of arguments, or named with any set of names - running the generated decisions gives what the model's
+   handler_invocation gives *)
+Theorem C19_invocation_code_known : hknown 6 invocation_code = true.
+Proof. exact invocation_code_known. Qed.
+
+Theorem C19_invocation_from_source : forall handler c,
+  invocation_generated handler c = HDone (handler_invocation handler c).
+Proof. exact generated_invocation_is_model. Qed.
+
 Print Assumptions C19_sound.
 Print Assumptions C19_f13_refused.
 Print Assumptions C19_exact.
 Print Assumptions C19_codes.
+Print Assumptions C19_invocation_code_known.
+Print Assumptions C19_invocation_from_source.
